@@ -7,7 +7,7 @@ from lib.props.c08 import parse_view
 LEVEL = "proof"
 MODEL_FILES = ["Model/PageRankM.v", "Model/DsaturM.v", "Model/FasM.v", "Model/SteinerM.v", "Model/View.v", "Model/MiscM.v", "Model/AlgoIO.v", "Model/AlgoBasic.v", "Model/MstM.v", "Model/UnionFindM.v"]
 THEOREMS = []
-EXTRA_PROPS = ["C20b", "C20c", "C20d", "C20e", "C20f"]
+EXTRA_PROPS = ["C20b", "C20c", "C20d", "C20e", "C20f", "C20g"]
 STREAMS = [("C20", 3000, 100000)]
 SHARD = 3000
 RELEASE_TOO = True
